@@ -92,6 +92,9 @@ func c19Run(r *core.Run) {
 	if !o.PreHistory(r) || !o.Build() {
 		return
 	}
+	if t.Int(5, "c19.otherapi") == 1 {
+		OtherAPICalls(r, o.Node.SP, 2)
+	}
 	r.Sim.Advance(time.Duration(t.Int(1e9, "c19.subsec")))
 	if o.Cfg.Loc != time.UTC {
 		r.Probe("non_utc_location")
